@@ -351,3 +351,9 @@ def thm_rt_present(e: bytes, attr_b: bytes, tail: bytes) -> None:
 def opt_bool(s: bytes, num: int, acc: bool) -> bool:
     """Fold for an optional context-tagged BOOLEAN [num] with a default: the last such element decides, otherwise the accumulator."""
     return acc if len(s) == 0 else opt_bool(rest_of(s), num, bool_den(content_of(s)) if ctx_is(s, num) else acc)
+
+
+def sel_list(s: bytes, num: int, acc: seqbytes) -> seqbytes:
+    """Fold for a repeated context-tagged component [num] collected by a skipping loop: the contents of all elements with that tag,
+    in order, appended to the accumulator."""
+    return acc if len(s) == 0 else sel_list(rest_of(s), num, snoc_bytes(acc, content_of(s)) if ctx_is(s, num) else acc)
